@@ -30,6 +30,14 @@ pub use connection::Connection;
 pub use routing::Router;
 pub use waiters::Waiters;
 
+/// Verification hooks (`cfg(kani)` only): re-exports of router-private items.
+#[cfg(kani)]
+pub mod verif_api {
+    pub use super::iobufs::Outgoing;
+    pub use super::scheduler::{PauseReason, ScheduleReason, Status, Tracker};
+    pub use super::Ack;
+}
+
 pub const MAX_SCHEDULE_ITERATIONS: usize = 100;
 pub const MAX_CHANNEL_CAPACITY: usize = 200;
 
